@@ -16,7 +16,10 @@ Semantics kept from xmlsec1 (apps/xmlsec.c):
   * --verify with --enabled-key-data raw-x509-cert uses only the certificate
     from --pubkey-cert-pem; without that restriction a key found in the
     Signature's KeyInfo is preferred (CVE-2021-21239 behaviour);
-  * --enabled-reference-uris empty,same-doc.
+  * --enabled-reference-uris empty,same-doc;
+  * the child order of ds:Signature / SignedInfo / Reference / Transforms is enforced as in
+    xmldsig.c (xmlSecDSigCtxProcessSignatureNode, ...SignedInfoNode, xmlSecDSigReferenceCtxProcessNode):
+    an extra, missing or re-ordered child is an "unexpected node" error.
 
 Canonicalisation is ElementTree C14N 2.0 with rewrite_prefixes=True: signer and
 verifier are both this program, so only consistency matters.
@@ -159,6 +162,40 @@ def _find_first(start, ns, name):
         if isinstance(el.tag, str) and el.tag == "{%s}%s" % (ns, name):
             return el
     return None
+
+
+def _child_names(el):
+    return ["%s:%s" % ("ds" if _ns(c.tag) == DS else _ns(c.tag), _local(c.tag)) for c in el if isinstance(c.tag, str)]
+
+
+def _strict_signature(sig):
+    """xmlsec1 walks the children of ds:Signature, ds:SignedInfo, ds:Reference and ds:Transforms in the order
+    the schema gives and fails on anything else (xmldsig.c); ElementTree's find() alone would tolerate extra or
+    re-ordered children (e.g. a second SignedInfo)."""
+    els = [c for c in sig if isinstance(c.tag, str)]
+    n = _child_names(sig)
+    if len(n) < 2 or n[0] != "ds:SignedInfo" or n[1] != "ds:SignatureValue":
+        return False
+    rest = n[2:]
+    if rest and rest[0] == "ds:KeyInfo":
+        rest = rest[1:]
+    if any(x != "ds:Object" for x in rest):
+        return False
+    si = els[0]
+    sn = _child_names(si)
+    if len(sn) < 3 or sn[0] != "ds:CanonicalizationMethod" or sn[1] != "ds:SignatureMethod":
+        return False
+    if any(x != "ds:Reference" for x in sn[2:]):
+        return False
+    for ref in [c for c in si if isinstance(c.tag, str)][2:]:
+        rn = _child_names(ref)
+        if rn == ["ds:Transforms", "ds:DigestMethod", "ds:DigestValue"]:
+            tr = [c for c in ref if isinstance(c.tag, str)][0]
+            if any(x != "ds:Transform" for x in _child_names(tr)):
+                return False
+        elif rn != ["ds:DigestMethod", "ds:DigestValue"]:
+            return False
+    return True
 
 
 def _c14n(el, with_comments=False):
@@ -322,6 +359,8 @@ def do_sign(opts, data):
     sig = _find_first(start, DS, "Signature")
     if sig is None:
         raise XErr("signature template not found")
+    if not _strict_signature(sig):
+        raise XErr("unexpected node in ds:Signature")
     key = _load_privkey(opts["privkey"])
     pmap = _parent_map(root)
     si = sig.find("{%s}SignedInfo" % DS)
@@ -348,6 +387,8 @@ def do_verify(opts, data):
     sig = _find_first(start, DS, "Signature")
     if sig is None:
         raise XErr("signature node not found")
+    if not _strict_signature(sig):
+        raise XErr("unexpected node in ds:Signature")
     pmap = _parent_map(root)
     enabled_uris = opts.get("enabled_reference_uris") or ["empty", "same-doc", "local", "remote"]
     restrict = opts.get("enabled_key_data")
